@@ -15,7 +15,15 @@ def main(argv=None):
     ap.add_argument("--replay", default=None)
     ap.add_argument("--runs", type=int, default=None)
     ap.add_argument("--jobs", type=int, default=None)
-    a = ap.parse_args(argv)
+    a, rest = ap.parse_known_args(argv)
+    if a.prop == "selftest-determinism":
+        from vf.selftest import determinism
+
+        return determinism.main(rest)
+    if a.prop == "selftest-conformance":
+        from vf.selftest import conformance
+
+        return conformance.main(rest)
     if a.prop == "selftest":
         from vf.selftest import smoke
 
